@@ -169,9 +169,22 @@ class WrappedField:
 
     @cached_property
     def is_collection_of_builtins(self):
-        return self.is_container and all(
-            behaves_like_a_built_in_class(field_type)
-            for field_type in get_args(self.type_without_optional)
+        if not self.is_container or self.is_type_type:
+            # Type[int] holds a class, not values of it
+            return False
+        element_types = [
+            # List[Optional[int]]: elements that may be missing
+            self._without_none(element_type)
+            if self._is_optional_type(element_type)
+            else element_type
+            for element_type in get_args(self.type_without_optional)
+            # Tuple[int, ...]: any number of them
+            if element_type is not Ellipsis
+        ]
+        return bool(element_types) and all(
+            isinstance(element_type, type)
+            and behaves_like_a_built_in_class(element_type)
+            for element_type in element_types
         )
 
     @cached_property
@@ -188,8 +201,8 @@ class WrappedField:
         try:
             element_type = get_args(self.type_without_optional)[0]
         except IndexError:
-            if self.resolved_type is Type:
-                return self.resolved_type
+            if self.type_without_optional is Type:
+                return self.type_without_optional
             else:
                 raise MissingContainedTypeOfContainer(
                     self.clazz.clazz, self.name, self.container_type
@@ -201,7 +214,8 @@ class WrappedField:
 
     @cached_property
     def is_type_type(self) -> bool:
-        return get_origin(self.resolved_type) is type
+        # also behind an Optional: Optional[Type[X]]
+        return get_origin(self.type_without_optional) is type
 
     @cached_property
     def is_enum(self) -> bool:
